@@ -298,6 +298,31 @@ func build(v Vector) ([]impl, error) {
 		return nil, fmt.Errorf("dynamic rendering does not parse: %s", dd.Error())
 	}
 	out = append(out, impl{"dynblock", dynblock.Expand(df.Body, &hcl.EvalContext{})})
+	// the same items as the CONTENT of a block generated by a dynamic block, and as the body of a
+	// static block nested in such a content: these bodies are processed under an active iteration
+	indent := func(s string) string { return "    " + strings.ReplaceAll(strings.TrimRight(s, "\n"), "\n", "\n    ") + "\n" }
+	inner := nativeText(v.Items, false)
+	for _, k := range []struct{ name, src string }{
+		{"dynblock-content", "dynamic \"w\" {\n  for_each = [\"e\"]\n  iterator = it\n  content {\n" + indent(inner) + "  }\n}\n"},
+		{"dynblock-static-in-content", "dynamic \"w\" {\n  for_each = [\"e\"]\n  content {\n    z {\n" + indent(indent(inner)) + "    }\n  }\n}\n"},
+	} {
+		f, d := hclsyntax.ParseConfig([]byte(k.src), "dc.hcl", hcl.InitialPos)
+		if d.HasErrors() {
+			return nil, fmt.Errorf("%s rendering does not parse: %s", k.name, d.Error())
+		}
+		body := dynblock.Expand(f.Body, &hcl.EvalContext{})
+		for _, typ := range []string{"w", "z"} {
+			content, cd := body.Content(&hcl.BodySchema{Blocks: []hcl.BlockHeaderSchema{{Type: typ}}})
+			if cd.HasErrors() || len(content.Blocks) != 1 {
+				return nil, fmt.Errorf("%s: wrapper block %s not found: %v", k.name, typ, cd)
+			}
+			body = content.Blocks[0].Body
+			if k.name == "dynblock-content" {
+				break
+			}
+		}
+		out = append(out, impl{k.name, body})
+	}
 	return out, nil
 }
 
@@ -625,7 +650,7 @@ func Handle(c *core.Check, st core.State) {
 		mism := ""
 		for i := range steps {
 			a, b := steps[i], v.Steps[i]
-			if im.name == "dynblock" {
+			if strings.HasPrefix(im.name, "dynblock") {
 				// the expanded body re-reports label problems of already-processed block types at
 				// every later step; diagnostics are therefore compared over the whole chain (below)
 				a.Errs, b.Errs = nil, nil
